@@ -344,8 +344,12 @@ def statistics(chk, mod):
                 ev.append(('model', x, params))
                 return 'MODEL-VALUES'
         dd = DAm(y, counts, var)
+        if not hasattr(mod, '_perform_fit'):
+            raise core.Unsupported('the module has no _perform_fit any more (renamed or inlined): this wiring contract does not apply')
         try:
-            chk.explore(lambda: ev.append(('ret', mod._perform_fit(Mdl(), dd, {'a': 1, 'b': 2}, {'bb': 3}))), base=[], catch=(Exception,))
+            pf_paths = chk.explore(lambda: ev.append(('ret', mod._perform_fit(Mdl(), dd, {'a': 1, 'b': 2}, {'bb': 3}))), base=[], catch=(Exception,))
+            if any(p_.kind == 'raise' and isinstance(p_.value, (AttributeError, TypeError, KeyError, NameError)) for p_ in pf_paths):
+                raise core.Unsupported(f'_perform_fit does not run on the stand-ins: {[repr(p_.value)[:80] for p_ in pf_paths if p_.kind == "raise"]}')
         finally:
             mod.curve_fit, mod._goodness_of_fit_statistics = saved
             sc_.DataArray = saved_da
